@@ -63,25 +63,40 @@ Section A.
 
   Notation ex := (expand env tolerate).
 
-  Lemma write_all_ok fs : forall out od,
-    write_all env tolerate fs out = (od, true) ->
-    NoDup (map fst fs) ->
-    (forall n c, In (n, c) fs -> lookup n od = ex c)
-    /\ (forall n, ~ In n (map fst fs) -> lookup n od = lookup n out)
-    /\ (forall f, In f od -> In f out \/ In (fst f) (map fst fs)).
+  (* whatever the outcome: entries come from the old directory or were written now *)
+  Lemma write_all_any fs : forall out od ok w,
+    write_all env tolerate fs out = (od, ok, w) ->
+    (forall f, In f od -> In f out \/ In (fst f) w)
+    /\ (ok = true -> w = map fst fs).
   Proof.
-    induction fs as [|[n c] r IH]; intros out od H Hnd; simpl in H.
-    - inversion H; subst. repeat split; auto. intros n c [].
+    induction fs as [|[n c] r IH]; intros out od ok w H; simpl in H.
+    - inversion H; subst. split; [auto | reflexivity].
+    - destruct (ex c) as [e|] eqn:E.
+      + destruct (write_all env tolerate r (upsert n e out)) as [[od1 ok1] w1] eqn:Ew. inversion H; subst.
+        destruct (IH _ _ _ _ Ew) as [I1 I2]. split.
+        * intros f Hf. destruct (I1 f Hf) as [H0|H0].
+          -- apply upsert_in in H0 as [H0|H0]; [right; left; subst; reflexivity | left; exact H0].
+          -- right. right. exact H0.
+        * intro Hok. simpl. f_equal. apply I2. exact Hok.
+      + inversion H; subst. split; [auto | discriminate].
+  Qed.
+
+  Lemma write_all_ok fs : forall out od w,
+    write_all env tolerate fs out = (od, true, w) ->
+    NoDup (map fst fs) ->
+    (forall n c, In (n, c) fs -> lookup n od = ex c /\ ex c <> None)
+    /\ (forall n, ~ In n (map fst fs) -> lookup n od = lookup n out).
+  Proof.
+    induction fs as [|[n c] r IH]; intros out od w H Hnd; simpl in H.
+    - inversion H; subst. split; auto. intros n c [].
     - destruct (ex c) as [e|] eqn:E; [|discriminate].
+      destruct (write_all env tolerate r (upsert n e out)) as [[od1 ok1] w1] eqn:Ew. inversion H; subst.
       inversion Hnd as [|? ? Hnin Hnd']; subst.
-      destruct (IH _ _ H Hnd') as [I1 [I2 I3]]. repeat split.
+      destruct (IH _ _ _ Ew Hnd') as [I1 I2]. split.
       + intros n0 c0 [H0|H0].
-        * inversion H0; subst. rewrite (I2 n0 Hnin). rewrite lookup_upsert_same. symmetry. exact E.
+        * inversion H0; subst. rewrite (I2 n0 Hnin). rewrite lookup_upsert_same. split; congruence.
         * apply I1. exact H0.
       + intros n0 Hn0. simpl in Hn0. rewrite I2 by tauto. apply lookup_upsert_other. intro; subst; apply Hn0; left; reflexivity.
-      + intros f Hf. destruct (I3 f Hf) as [H0|H0].
-        * apply upsert_in in H0 as [H0|H0]; [right; left; subst; reflexivity | left; exact H0].
-        * right. right. exact H0.
   Qed.
 
   Definition cfg_hash (cfg : option str) : option str := if has_cfg then cfg else None.
@@ -91,12 +106,45 @@ Section A.
     match last_dir s with Some d => files_eqb d dir | None => false end
     && option_eqb str_eqb (last_cfg s) (cfg_hash cfg).
 
-  (* every output file stems from the last complete pass *)
+  (* every output file is recorded in lastCfgDirFiles *)
   Definition synced (s : rst) : Prop :=
     match last_names s with
     | Some prev => forall f, In f (out_dir s) -> In (fst f) prev
     | None => out_dir s = []
     end.
+
+  Lemma synced_init : synced init.
+  Proof. reflexivity. Qed.
+
+  (* first part of apply: the config file *)
+  Definition step1 (s : rst) (cfg : option str) : option (option str * option str) :=
+    if has_cfg then
+      match cfg with
+      | None => None
+      | Some c => match ex c with Some e => Some (Some c, Some e) | None => None end
+      end
+    else Some (None, out_cfg s).
+
+  (* with the repair, [synced] is an invariant of every apply call, failing or not *)
+  Lemma apply_synced s cfg dir fails give_up :
+    synced s -> synced (fst (apply has_cfg env tolerate s cfg dir fails give_up)).
+  Proof.
+    intro Hs. unfold apply, apply_gen. fold (step1 s cfg).
+    destruct (step1 s cfg) as [[ch oc]|]; [|exact Hs].
+    destruct (write_all env tolerate dir (out_dir s)) as [[od ok] w] eqn:Ew.
+    destruct (write_all_any dir _ _ _ _ Ew) as [W1 W2].
+    assert (Hod : forall f, In f od -> In (fst f) (match last_names s with Some p => p | None => [] end ++ w)).
+    { intros f Hf. apply in_or_app. destruct (W1 f Hf) as [H0|H0]; [|right; exact H0]. left.
+      unfold synced in Hs. destruct (last_names s) as [p|]; [apply Hs; exact H0 | rewrite Hs in H0; destruct H0]. }
+    destruct ok; cbn [negb].
+    - set (pv := match last_names s with Some p => p | None => [] end ++ w) in *.
+      set (names := map fst dir).
+      assert (Hf : forall f, In f (filter (fun f => negb (mem_str (fst f) pv && negb (mem_str (fst f) names))) od) -> In (fst f) names).
+      { intros f Hf. apply filter_In in Hf as [Hf Hp]. specialize (Hod f Hf). apply mem_str_In in Hod.
+        rewrite Hod in Hp. cbn in Hp. apply negb_true_iff in Hp. apply negb_false_iff in Hp. apply mem_str_In. exact Hp. }
+      destruct (negb (force s) && _ && _); [exact Hf|]. destruct give_up; exact Hf.
+    - exact Hod.
+  Qed.
 
   Lemma apply_spec s cfg dir fails give_up s' r :
     apply has_cfg env tolerate s cfg dir fails give_up = (s', r) ->
@@ -113,46 +161,43 @@ Section A.
                                  /\ force s' = (force s || r_tried r))
     /\ (r_tried r = true -> r_succeeded r = negb give_up)
     /\ last_names s' = Some (map fst dir)
+    (* outputs of vanished inputs are removed *)
     /\ (synced s -> forall f, In f (out_dir s') -> In (fst f) (map fst dir)).
   Proof.
-    unfold apply. intros H Herr Hnd.
-    assert (Hstep1 : exists ch oc,
-      (if has_cfg then match cfg with None => None | Some c => match ex c with Some e => Some (Some c, Some e) | None => None end end
-       else Some (None, out_cfg s)) = Some (ch, oc)
-      /\ ch = cfg_hash cfg
+    intros H Herr Hnd.
+    assert (Hsync : synced s -> forall f, In f (out_dir s') -> In (fst f) (map fst dir)).
+    { intros Hs f Hf. pose proof (apply_synced s cfg dir fails give_up Hs) as HS. rewrite H in HS. cbn [fst] in HS.
+      revert HS Hf. unfold synced.
+      assert (Hl : last_names s' = Some (map fst dir) \/ r_err r = true).
+      { revert H. unfold apply, apply_gen. fold (step1 s cfg). destruct (step1 s cfg) as [[ch oc]|]; [|intro H; inversion H; subst; right; reflexivity].
+        destruct (write_all env tolerate dir (out_dir s)) as [[od ok] w]. destruct ok; cbn [negb]; [|intro H; inversion H; subst; right; reflexivity].
+        destruct (negb (force s) && _ && _); [intro H; inversion H; subst; left; reflexivity|].
+        destruct give_up; intro H; inversion H; subst; left; reflexivity. }
+      destruct Hl as [Hl|Hl]; [|congruence]. rewrite Hl. intros HS Hf. apply HS. exact Hf. }
+    revert H. unfold apply, apply_gen. fold (step1 s cfg). intro H.
+    assert (Hstep1 : exists ch oc, step1 s cfg = Some (ch, oc) /\ ch = cfg_hash cfg
       /\ (has_cfg = true -> exists c, cfg = Some c /\ oc = ex c /\ ex c <> None)).
-    { unfold cfg_hash. destruct has_cfg.
-      - destruct cfg as [c|]; [|exfalso; cbv beta iota zeta in H; inversion H; subst; discriminate].
-        destruct (ex c) as [e|] eqn:E; [|exfalso; cbv beta iota zeta in H; inversion H; subst; discriminate].
-        exists (Some c), (Some e). repeat split. intros _. exists c. repeat split; congruence.
-      - exists None, (out_cfg s). repeat split. discriminate. }
-    destruct Hstep1 as [ch [oc [E1 [Ech Hcfg]]]]. rewrite E1 in H. cbn [last_cfg last_dir last_names force out_dir] in H.
-    destruct (write_all env tolerate dir (out_dir s)) as [od ok] eqn:Ew.
+    { destruct (step1 s cfg) as [[ch oc]|] eqn:E1; [|inversion H; subst; discriminate].
+      exists ch, oc. split; [reflexivity|]. revert E1. unfold step1, cfg_hash. destruct has_cfg.
+      - destruct cfg as [c|]; [|discriminate]. destruct (ex c) as [e|] eqn:E; [|discriminate].
+        intro E1. inversion E1; subst. split; [reflexivity|]. intros _. exists c. repeat split; congruence.
+      - intro E1. inversion E1; subst. split; [reflexivity | discriminate]. }
+    destruct Hstep1 as [ch [oc [E1 [Ech Hcfg]]]]. rewrite E1 in H.
+    destruct (write_all env tolerate dir (out_dir s)) as [[od ok] w] eqn:Ew.
     destruct ok; cbn [negb] in H; [|inversion H; subst; discriminate].
-    destruct (write_all_ok dir _ _ Ew Hnd) as [W1 [W2 W3]].
+    destruct (write_all_ok dir _ _ _ Ew Hnd) as [W1 W2].
     set (names := map fst dir) in *.
-    set (od' := match last_names s with
-                | Some prev => filter (fun f => negb (mem_str (fst f) prev && negb (mem_str (fst f) names))) od
-                | None => od end) in *.
+    set (pv := match last_names s with Some p => p | None => [] end ++ w) in *.
+    set (od' := filter (fun f => negb (mem_str (fst f) pv && negb (mem_str (fst f) names))) od) in *.
     assert (Hlook : forall n c, In (n, c) dir -> lookup n od' = ex c /\ ex c <> None).
     { intros n c Hin. assert (Hn : In n names) by (apply in_map_iff; exists (n, c); auto).
-      assert (Hex : ex c <> None).
-      { clear -Ew Hin. revert Ew. generalize (out_dir s). induction dir as [|[n0 c0] r IH]; intros out Ew; [destruct Hin|].
-        simpl in Ew. destruct (ex c0) as [e|] eqn:E; [|discriminate].
-        destruct Hin as [Hin|Hin]; [inversion Hin; subst; congruence | eapply IH; eauto]. }
-      split; [|exact Hex]. unfold od'. destruct (last_names s) as [prev|]; [|apply W1; exact Hin].
-      rewrite (lookup_filter_name (fun x => negb (mem_str x prev && negb (mem_str x names)))); [apply W1; exact Hin|].
+      destruct (W1 n c Hin) as [L1 L2]. split; [|exact L2]. unfold od'.
+      rewrite (lookup_filter_name (fun x => negb (mem_str x pv && negb (mem_str x names)))); [exact L1|].
       apply mem_str_In in Hn. rewrite Hn. cbn. rewrite andb_false_r. reflexivity. }
-    assert (Hsync : synced s -> forall f, In f od' -> In (fst f) names).
-    { unfold synced, od'. intros Hs f Hf. destruct (last_names s) as [prev|].
-      - apply filter_In in Hf as [Hf Hp]. destruct (W3 f Hf) as [H0|H0]; [|exact H0].
-        specialize (Hs f H0). apply mem_str_In in Hs. rewrite Hs in Hp. cbn in Hp.
-        apply negb_true_iff in Hp. apply negb_false_iff in Hp. apply mem_str_In. exact Hp.
-      - rewrite Hs in W3. destruct (W3 f Hf) as [[]|H0]. exact H0. }
     assert (Hsame : (negb (force s) && negb (match last_dir s with Some d => negb (files_eqb d dir) | None => true end)
                      && option_eqb str_eqb (last_cfg s) ch) = negb (force s || negb (same_as_recorded s cfg dir))).
     { unfold same_as_recorded. rewrite <- Ech. destruct (force s), (last_dir s) as [d|]; cbn; try reflexivity.
-      - destruct (files_eqb d dir), (option_eqb str_eqb (last_cfg s) ch); reflexivity. }
+      destruct (files_eqb d dir), (option_eqb str_eqb (last_cfg s) ch); reflexivity. }
     rewrite Hsame in H.
     destruct (force s || negb (same_as_recorded s cfg dir)) eqn:Et; cbn [negb] in H.
     - destruct give_up; inversion H; subst; clear H;
@@ -169,6 +214,30 @@ Section A.
       (split; [intros _; repeat split; try reflexivity; rewrite Ef; reflexivity|]).
       (split; [discriminate|]). split; [reflexivity | exact Hsync].
   Qed.
+
+  (* whether apply fails does not depend on the reloader state *)
+  Lemma apply_err_state s1 s2 cfg dir f1 g1 f2 g2 :
+    r_err (snd (apply has_cfg env tolerate s1 cfg dir f1 g1))
+    = r_err (snd (apply has_cfg env tolerate s2 cfg dir f2 g2)).
+  Proof.
+    assert (G : forall s f g, r_err (snd (apply has_cfg env tolerate s cfg dir f g))
+              = match step1 init cfg with None => true | Some _ => negb (snd (fst (write_all env tolerate dir []))) end).
+    { intros s f g. unfold apply, apply_gen. fold (step1 s cfg).
+      assert (E : match step1 s cfg with None => true | Some _ => false end = match step1 init cfg with None => true | Some _ => false end).
+      { unfold step1. destruct has_cfg; [destruct cfg as [c|]; [destruct (ex c)|]|]; reflexivity. }
+      assert (Ew : forall o1 o2, snd (fst (write_all env tolerate dir o1)) = snd (fst (write_all env tolerate dir o2))).
+      { clear. induction dir as [|[n c] r IH]; intros o1 o2; simpl; [reflexivity|].
+        destruct (expand env tolerate c); [|reflexivity].
+        specialize (IH (upsert n s o1) (upsert n s o2)).
+        destruct (write_all env tolerate r (upsert n s o1)) as [[a1 b1] c1].
+        destruct (write_all env tolerate r (upsert n s o2)) as [[a2 b2] c2]. exact IH. }
+      destruct (step1 s cfg) as [[ch oc]|], (step1 init cfg) as [[ch' oc']|]; try discriminate; [|reflexivity].
+      specialize (Ew (out_dir s) []).
+      destruct (write_all env tolerate dir (out_dir s)) as [[od ok] w]. cbn [fst snd] in Ew. rewrite <- Ew.
+      destruct ok; cbn [negb]; [|reflexivity].
+      destruct (negb (force s) && _ && _); [reflexivity|]. destruct g; reflexivity. }
+    rewrite (G s1), (G s2). reflexivity.
+  Qed.
 End A.
 
 (* an error pass breaks the bookkeeping: the output of b stays after b's input is gone *)
@@ -179,8 +248,147 @@ Definition fc : str := [99%N].
 Definition bad : str := [36; 40; 85; 41]%N.          (* "$(U)" *)
 
 Lemma error_pass_leaves_stale_output :
-  let s1 := fst (apply false w_env false init None [(fa, [120%N])] 0 false) in
-  let s2 := fst (apply false w_env false s1 None [(fa, [120%N]); (fb, [121%N]); (fc, bad)] 0 false) in
-  let '(s3, r3) := apply false w_env false s2 None [(fa, [120%N])] 0 false in
-  r_err r3 = false /\ out_dir s3 = [(fa, [120%N]); (fb, [121%N])].
-Proof. vm_compute. split; reflexivity. Qed.
+  let s1 := fst (apply_unfixed false w_env false init None [(fa, [120%N])] 0 false) in
+  let s2 := fst (apply_unfixed false w_env false s1 None [(fa, [120%N]); (fb, [121%N]); (fc, bad)] 0 false) in
+  let '(s3, r3) := apply_unfixed false w_env false s2 None [(fa, [120%N])] 0 false in
+  r_err r3 = false /\ out_dir s3 = [(fa, [120%N]); (fb, [121%N])]
+  /\ out_dir (fst (apply false w_env false
+        (fst (apply false w_env false (fst (apply false w_env false init None [(fa, [120%N])] 0 false))
+                    None [(fa, [120%N]); (fb, [121%N]); (fc, bad)] 0 false))
+        None [(fa, [120%N])] 0 false)) = [(fa, [120%N])].
+Proof. vm_compute. repeat split; reflexivity. Qed.
+
+(* ---- the loop of Watch ---- *)
+
+(* tie T: the endless loop returns only when the parent context is done, and
+   calls apply on every other way through the select *)
+Fixpoint at_depth0 (evs : list (string * string)) (depth : nat) : list (string * string) :=
+  match evs with
+  | [] => []
+  | (k, t) :: r =>
+    if String.eqb k "if" then at_depth0 r (S depth)
+    else if String.eqb k "endif" then at_depth0 r (pred depth)
+    else match depth with O => (k, t) :: at_depth0 r depth | S _ => at_depth0 r depth end
+  end.
+
+Definition watch_shape_ok : bool :=
+  let ifs := map snd (filter (fun e => String.eqb (fst e) "if") watch_loop) in
+  let rets := map snd (filter (fun e => String.eqb (fst e) "return") watch_loop) in
+  let top := at_depth0 watch_loop 0 in
+  list_eqb String.eqb rets ["nil"%string]
+  && String.eqb (hd ""%string ifs) "ctx.Err() != nil"
+  && existsb (fun e => String.eqb (fst e) "call" && String.eqb (snd e) "r.apply") top
+  && negb (existsb (fun e => String.eqb (fst e) "return") top).
+
+Lemma watch_shape : watch_shape_ok = true.
+Proof. vm_compute. reflexivity. Qed.
+
+Section Wt.
+  Variable has_cfg : bool.
+  Variable env : str -> option str.
+  Variable tolerate : bool.
+
+  Notation applyf := (apply has_cfg env tolerate).
+  Notation watchf := (watch has_cfg env tolerate).
+
+  Lemma files_eqb_refl d : files_eqb d d = true.
+  Proof.
+    unfold files_eqb. induction d as [|[n c] d IH]; [reflexivity|].
+    cbn [list_eqb fst snd]. rewrite !str_eqb_refl, IH. reflexivity.
+  Qed.
+
+  Lemma ostr_eqb_refl o : option_eqb str_eqb o o = true.
+  Proof. destruct o; simpl; [apply str_eqb_refl | reflexivity]. Qed.
+
+  (* events before the context is cancelled *)
+  Fixpoint live (evs : list wstep) : list wstep :=
+    match evs with
+    | [] => []
+    | (EDone, _, _) :: _ => []
+    | e :: r => e :: live r
+    end.
+
+  Lemma watch_applies_every_event evs : forall s,
+    List.length (snd (watchf s evs)) = List.length (live evs).
+  Proof.
+    induction evs as [|[[e [cfg dir]] [f g]] r IH]; intro s; [reflexivity|].
+    destruct e; cbn [watch live]; try reflexivity;
+      destruct (applyf s cfg dir f g) as [s' res]; specialize (IH s');
+      destruct (watchf s' r) as [s'' rs]; simpl in *; rewrite IH; reflexivity.
+  Qed.
+
+  Definition settled (s : rst) (cfg : option str) (dir : files) : Prop :=
+    force s = false /\ same_as_recorded has_cfg s cfg dir = true.
+
+  (* an apply whose endpoint script ends in success leaves the reloader settled *)
+  Lemma apply_settles s cfg dir fails s' r :
+    applyf s cfg dir fails false = (s', r) -> r_err r = false -> NoDup (map fst dir) ->
+    settled s' cfg dir.
+  Proof.
+    intros H He Hnd.
+    destruct (apply_spec has_cfg env tolerate s cfg dir fails false s' r H He Hnd)
+      as [_ [_ [Ht [Hs [Hf [Hts _]]]]]].
+    unfold settled, same_as_recorded. destruct (r_tried r) eqn:Et.
+    - assert (Hsucc : r_succeeded r = true) by (rewrite (Hts eq_refl); reflexivity).
+      destruct (Hs Hsucc) as [_ [_ [F [L1 [L2 _]]]]]. rewrite F, L1, L2, files_eqb_refl, ostr_eqb_refl. auto.
+    - assert (Hsucc : r_succeeded r = false).
+      { destruct (r_succeeded r) eqn:E; [|reflexivity]. destruct (Hs eq_refl) as [T _]. congruence. }
+      destruct (Hf Hsucc) as [L1 [L2 F]]. symmetry in Ht. apply orb_false_iff in Ht as [F0 S0].
+      apply negb_false_iff in S0. unfold same_as_recorded in S0. rewrite F, F0, L1, L2. auto.
+  Qed.
+
+  (* a settled reloader stays settled on the same content and does not call the endpoint *)
+  Lemma apply_stable s cfg dir fails give_up s' r :
+    settled s cfg dir -> applyf s cfg dir fails give_up = (s', r) -> r_err r = false -> NoDup (map fst dir) ->
+    r_tried r = false /\ settled s' cfg dir.
+  Proof.
+    intros [F0 S0] H He Hnd.
+    destruct (apply_spec has_cfg env tolerate s cfg dir fails give_up s' r H He Hnd)
+      as [_ [_ [Ht [Hs [Hf _]]]]].
+    rewrite F0, S0 in Ht. cbn in Ht. split; [exact Ht|].
+    assert (Hsucc : r_succeeded r = false).
+    { destruct (r_succeeded r) eqn:E; [|reflexivity]. destruct (Hs eq_refl) as [T _]. congruence. }
+    destruct (Hf Hsucc) as [L1 [L2 F]]. unfold settled, same_as_recorded in *. rewrite F, F0, Ht, L1, L2. auto.
+  Qed.
+
+  (* a failed reload is retried at the next event *)
+  Lemma retry_next s cfg dir fails s' r cfg2 dir2 f2 g2 :
+    applyf s cfg dir fails true = (s', r) -> r_err r = false -> NoDup (map fst dir) -> r_tried r = true ->
+    r_err (snd (applyf s' cfg2 dir2 f2 g2)) = false -> NoDup (map fst dir2) ->
+    r_tried (snd (applyf s' cfg2 dir2 f2 g2)) = true.
+  Proof.
+    intros H He Hnd Ht He2 Hnd2.
+    destruct (apply_spec has_cfg env tolerate s cfg dir fails true s' r H He Hnd) as [_ [_ [_ [_ [Hf [Hts _]]]]]].
+    assert (Hsucc : r_succeeded r = false) by (rewrite (Hts Ht); reflexivity).
+    destruct (Hf Hsucc) as [_ [_ F]]. rewrite Ht, orb_true_r in F.
+    destruct (applyf s' cfg2 dir2 f2 g2) as [s2 r2] eqn:E2. cbn [snd] in *.
+    destruct (apply_spec has_cfg env tolerate s' cfg2 dir2 f2 g2 s2 r2 E2 He2 Hnd2) as [_ [_ [Ht2 _]]].
+    rewrite Ht2, F. reflexivity.
+  Qed.
+
+  (* every event carries the same content and none is the cancellation *)
+  Definition quiet (cfg : option str) (dir : files) (evs : list wstep) : Prop :=
+    Forall (fun e => fst (fst e) <> EDone /\ snd (fst e) = (cfg, dir)) evs.
+
+  (* once settled, nothing happens any more while the content stays the same *)
+  Lemma watch_stable cfg dir evs : forall s,
+    settled s cfg dir -> quiet cfg dir evs -> NoDup (map fst dir) ->
+    r_err (snd (applyf init cfg dir 0 false)) = false ->
+    settled (fst (watchf s evs)) cfg dir
+    /\ Forall (fun r => r_err r = false /\ r_tried r = false) (snd (watchf s evs))
+    /\ List.length (snd (watchf s evs)) = List.length evs.
+  Proof.
+    induction evs as [|[[e [cfg' dir']] [f g]] rest IH]; intros s Hs Hq Hnd He.
+    - cbn. repeat split; auto. apply Hs. apply Hs.
+    - inversion Hq as [|? ? [Hne Heq] Hq']; subst. cbn [fst snd] in Hne, Heq. inversion Heq; subst cfg' dir'.
+      destruct e; [ | | congruence];
+      (cbn [watch]; destruct (applyf s cfg dir f g) as [s' res] eqn:Ea;
+       assert (He' : r_err res = false)
+         by (pose proof (apply_err_state has_cfg env tolerate s init cfg dir f g 0 false) as E;
+             rewrite Ea in E; cbn [snd] in E; congruence);
+       destruct (apply_stable s cfg dir f g s' res Hs Ea He' Hnd) as [Ht Hs'];
+       destruct (IH s' Hs' Hq' Hnd He) as [I1 [I2 I3]];
+       destruct (watchf s' rest) as [s'' rs]; cbn [fst snd] in *;
+       split; [exact I1 | split; [constructor; [split; assumption | exact I2] | simpl; rewrite I3; reflexivity]]).
+  Qed.
+End Wt.
